@@ -237,5 +237,35 @@ Section Inst.
       - exact MF.
       - intros f d t e Hf S LE. exact (proj2 (found_w_blocks _ _ _ (FW f Hf)) d t e S LE).
     Qed.
+
+    Theorem sel_repair_whole marker delim ignore_size look preamble (T : list (list byte * list byte)) dmg want L :
+      L <> [] -> marker <> [] ->
+      clean_pieces marker (preamble :: map (gen_entry delim (C03Inst.fenc_w algo ik ies) track_w) T) ->
+      (forall f, In f T ->
+         prefixb delim (fst f ++ delim) = false /\ clean_mid delim (fst f) /\ clean_mid delim (size_of f) /\
+         clean_mid delim (C03Inst.fenc_w algo ik ies (fst f)) /\ clean_mid delim (C03Inst.fenc_w algo ik ies (size_of f))) ->
+      (forall f, In f T -> (N.of_nat (length (snd f)) < 10 ^ 4300)%N) ->
+      (forall f, In f T -> has_nul (fst f) = false) ->
+      NoDup (map fst T) ->
+      (forall f, In f T -> look (fst f) = Some (dmg f)) ->
+      (forall f, In f T -> found_w (snd f) (dmg f) (want f)) ->
+      (forall f, In f T -> meta_len delim (fst f) (size_of f) (C03Inst.fenc_w algo ik ies (fst f)) (C03Inst.fenc_w algo ik ies (size_of f)) <= window) ->
+      exists rs, Forall2 (rel want (fun f => dmg f <> want f)) (SelectP.Tsel T L) rs /\
+        Select.run_w_sel marker delim ignore_size look (C03Inst.intra_w algo ik ies idec) L window blocksW
+              (generate marker delim (C03Inst.fenc_w algo ik ies) track_w preamble T)
+        = Done (mkC (length (SelectP.Tsel T L)) (n_full_of rs) (n_full_of rs) 0 0) (outs_of rs) 0.
+    Proof.
+      intros HL Hm U1 U2 SZ NN ND LK FW MF.
+      apply (SelectP.sel_repair_w T want (fun f => dmg f <> want f) marker delim ignore_size look (C03Inst.intra_w algo ik ies idec) window blocksW
+               (C03Inst.fenc_w algo ik ies) track_w preamble dmg L HL Hm U1 U2).
+      - intros f _. split; apply (C03Inst.intra_facts algo ik ies ik_pos ik_le idec).
+      - intros f Hf. unfold size_of, zlen. rewrite (py_int_dec _ (SZ f Hf)), nat_N_Z. reflexivity.
+      - exact NN.
+      - exact ND.
+      - exact LK.
+      - intros f Hf. exact (proj1 (found_w_blocks _ _ _ (FW f Hf))).
+      - exact MF.
+      - intros f d t e Hf S LE. exact (proj2 (found_w_blocks _ _ _ (FW f Hf)) d t e S LE).
+    Qed.
   End Whole.
 End Inst.
